@@ -975,7 +975,7 @@ func (x *provloopsPl) fullScanLoop(fd *ast.FuncDecl) string {
 
 // httpRun: Provider.Run of components/providers/http/provider
 func (x *provloopsPl) httpRun(fd *ast.FuncDecl) string {
-	ch, _ := x.deferCloses(fd)
+	closesAll := provloopsFinClosesAll(x.pkg, fd) // round 3: on every path of the deferred function (area_provloops_fin.go)
 	x.vars = map[string]string{"err": "errV"}
 	// find `if p.Config.Preload { err = p.loadAmmo(ctx); if err == nil { err = p.runPreloaded(ctx); MAPPING } } else { err = p.runFullScan(ctx) }`
 	var mapping []ast.Stmt
@@ -1003,9 +1003,9 @@ func (x *provloopsPl) httpRun(fd *ast.FuncDecl) string {
 		return x.fail(fd, "Run does not have the shape `if Preload { loadAmmo; if err == nil { runPreloaded; mapping } } else { runFullScan }`")
 	}
 	g := &provloopsGuardCtx{ret: x.retSentinel(""), fall: func(ind string) string { return ind + "errV" }}
-	return fmt.Sprintf("/-- regenerated from `components/providers/http/provider/provider.go` Run: the deferred function closes `p.Sink` -/\ndef httpRunCloses : Bool := %v\n\n"+
+	return fmt.Sprintf("/-- regenerated from `components/providers/http/provider/provider.go` Run: the deferred function closes `p.Sink` on every one of its paths -/\ndef httpRunCloses : Bool := %v\n\n"+
 		"/-- regenerated from Run: what is done with the result of runPreloaded (the result of runFullScan is returned as it is) -/\ndef httpRunMap (errV : RunRes) : RunRes :=\n%s\n\n",
-		ch == "p.Sink", x.guards(mapping, "  ", g))
+		closesAll, x.guards(mapping, "  ", g))
 }
 
 // scanAmmos of the jsonline decoder (JSON array)
